@@ -17,9 +17,19 @@
 //!  {"kind":"esttimes","cars":[n1,n2],"dir":"AB"|"BA","depart":s,"locos":m}
 //!  {"kind":"dispatch","trains":[{"cars":[n1,n2,n3,n4],"dir":..,"depart":s}..],"walk":bool}
 //!  {"kind":"setspeed"|"speedlimit","scale":"toy"|"real","cars":n,"len":L}
+//!  {"kind":"consist","n":3..7,"mix":m,"steps":S,"units":[{loco params}..],"pdct":..,"dem":[sixteenths of the limit..],"dt10":..}
+//!      a consist of n locomotives with pairwise different non-dyadic ratings, stepped S times (set_pwr_aux,
+//!      set_cur_pwr_max_out, solve_energy_consumption, step; positive and negative demands) — executed like every
+//!      input and then inside rayon pools of 1, 2, 4, 7 workers: Run {cls:"pool", how:"pool<n>"}
+//!  {"kind":"build","types":3..5,"mix":m,"reps":R,"cars":[{rail vehicle params + "n"}..],"sim":"setspeed"|"speedlimit"}
+//!      a train of >= 3 car types with non-dyadic masses built by TrainSimBuilder from separately constructed equal
+//!      inputs (fresh Vec<RailVehicle>, fresh n_cars_by_type map — new hasher — filled in another insertion order
+//!      every time): Run {cls:"build", how:"build<k>"}
+//! `units` / `cars` absent (TLC-emitted descriptors): derived from n / types and mix by fixed tables.
 #[path = "../canon.rs"]
 mod canon;
 use altrios_core::consist::locomotive::loco_sim::LocomotiveSimulationVec;
+use altrios_core::consist::LocoTrait;
 use altrios_core::meet_pass::dispatch::run_dispatch;
 use altrios_core::prelude::*;
 use altrios_core::track::{import_locations, LocationMap};
@@ -43,8 +53,145 @@ fn pools() -> &'static Vec<(usize, rayon::ThreadPool)> {
     })
 }
 
+const CPOOLS: [usize; 4] = [1, 2, 4, 7];
+static CPOOL_SET: OnceLock<Vec<(usize, rayon::ThreadPool)>> = OnceLock::new();
+fn cpools() -> &'static Vec<(usize, rayon::ThreadPool)> {
+    CPOOL_SET.get_or_init(|| {
+        CPOOLS
+            .iter()
+            .map(|n| (*n, rayon::ThreadPoolBuilder::new().num_threads(*n).build().expect("rayon pool")))
+            .collect()
+    })
+}
+
 // ---------------------------------------------------------------------------------------------
 // inputs
+
+/// Locomotives of a "consist" input: pairwise different, non-dyadic ratings and efficiencies (so that sums of
+/// three or more fuel / battery / output powers depend on the order of addition).
+fn consist_units(desc: &Value) -> Vec<Value> {
+    if let Some(u) = desc.get("units").and_then(|x| x.as_array()) {
+        if !u.is_empty() {
+            return u.clone();
+        }
+    }
+    let n = desc.get("n").and_then(|x| x.as_u64()).unwrap_or(5) as usize;
+    let mix = desc.get("mix").and_then(|x| x.as_u64()).unwrap_or(0);
+    (0..n)
+        .map(|j| {
+            let bel = match mix % 3 { 0 => false, 1 => true, _ => j % 2 == 1 };
+            let r = 3100.7 + 317.3 * j as f64;
+            let x = j as f64;
+            if bel {
+                json!({"kind":"bel","rres":r,"redrv":r,"ke":1.3 + 0.07 * x,"kr":1.7 + 0.03 * x,"soc":0.43 + 0.031 * x,
+                       "cap":61234.5 + 1777.7 * x,"aux":33.3 + 1.1 * x})
+            } else {
+                json!({"kind":"conv","rfc":r,"rgen":r,"redrv":r,"kf":2.7 + 0.11 * x,"kg":1.1 + 0.03 * x,"ke":1.3 + 0.07 * x,
+                       "aux":33.3 + 1.1 * x,"idle":70.7 + 3.3 * x})
+            }
+        })
+        .collect()
+}
+
+/// One execution of a "consist" input under whatever rayon pool is current.
+fn run_consist(desc: &Value) -> anyhow::Result<(bool, Node)> {
+    const D: [i64; 8] = [8, 12, -6, 14, -10, 3, 0, -12];
+    let units = consist_units(desc);
+    let pdct = desc.get("pdct").and_then(|x| x.as_str()).unwrap_or("Proportional");
+    let mut con = build::consist(&units, pdct, Some(1))?;
+    let steps = desc.get("steps").and_then(|x| x.as_u64()).unwrap_or(8) as usize;
+    let dt = uc::S * (desc.get("dt10").and_then(|x| x.as_f64()).unwrap_or(10.0) / 10.0);
+    let dem: Vec<i64> = match desc.get("dem").and_then(|x| x.as_array()) {
+        Some(a) if !a.is_empty() => a.iter().map(|x| x.as_i64().unwrap_or(0)).collect(),
+        _ => D.to_vec(),
+    };
+    let mut errs = vec![];
+    for k in 0..steps {
+        let f = dem[k % dem.len()].clamp(-15, 15) as f64 / 16.0;
+        let keep = con.clone();
+        let r = (|| -> anyhow::Result<()> {
+            con.set_pwr_aux(Some(true))?;
+            con.set_cur_pwr_max_out(None, dt)?;
+            let p = if f >= 0.0 { con.state.pwr_out_max * f } else { con.state.pwr_dyn_brake_max * f };
+            con.solve_energy_consumption(p, dt, Some(true))?;
+            con.step();
+            Ok(())
+        })();
+        if let Err(e) = r {
+            errs.push(Node::S(format!("step {k}: {}", errtxt(&e))));
+            con = keep;
+        }
+    }
+    Ok((errs.is_empty(), Node::Seq(vec![tree(&con), Node::Seq(errs)])))
+}
+
+/// Car types of a "build" input: non-dyadic masses, rotating masses, resistances; different axle counts.
+fn build_cars(desc: &Value) -> Vec<Value> {
+    if let Some(u) = desc.get("cars").and_then(|x| x.as_array()) {
+        if !u.is_empty() {
+            return u.clone();
+        }
+    }
+    const MASS: [f64; 5] = [31700.0, 27300.0, 19900.0, 23100.0, 35300.0];
+    const N: [u32; 5] = [7, 11, 13, 5, 9];
+    const AX: [u32; 5] = [4, 6, 4, 8, 6];
+    const ROT: [f64; 5] = [683.7, 591.3, 712.9, 655.1, 701.3];
+    let t = (desc.get("types").and_then(|x| x.as_u64()).unwrap_or(3) as usize).clamp(1, 5);
+    let mix = desc.get("mix").and_then(|x| x.as_u64()).unwrap_or(0) as usize;
+    (0..t)
+        .map(|i| {
+            let j = (i + mix) % 5;
+            let x = j as f64;
+            json!({"n":N[j],"car_mass":MASS[j] + 0.1 * x,"freight": if j % 2 == 0 { 48151.3 + 1010.1 * x } else { 0.0 },
+                   "axles":AX[j],"brakes":1,"car_len":16.3 + 0.7 * x,"vmax":31.3,"mass_rot":ROT[j],
+                   "bearing":40.3 + 1.7 * x,"rolling":0.00193 + 0.00011 * x,"davis_b":0.0011 + 0.0003 * x,
+                   "cd_area":2.3 + 0.37 * x,"braking_ratio":0.113 + 0.007 * x})
+        })
+        .collect()
+}
+
+/// One construction of a "build" input. Everything the builder consumes is made afresh: the Vec<RailVehicle> (same
+/// order: the order of the Vec is part of the input), the n_cars_by_type map (a new RandomState, keys inserted in the
+/// `variant`-th rotation / reversal of the order), the consist, the network.
+fn run_build(desc: &Value, variant: usize) -> anyhow::Result<(bool, Node)> {
+    let cars = build_cars(desc);
+    let t = cars.len();
+    let rvs: Vec<RailVehicle> = cars.iter().enumerate().map(|(i, p)| build::rail_vehicle(p, &format!("T{i}"))).collect();
+    let mut order: Vec<usize> = (0..t).collect();
+    order.rotate_left(variant % t.max(1));
+    if (variant / t.max(1)) % 2 == 1 {
+        order.reverse();
+    }
+    let mut counts: HashMap<String, u32> = HashMap::new();
+    for i in order {
+        counts.insert(format!("T{i}"), cars[i].get("n").and_then(|x| x.as_u64()).unwrap_or(4) as u32);
+    }
+    let tc = match TrainConfig::new(rvs, counts, TrainType::Freight, None, None, None) {
+        Ok(tc) => tc,
+        Err(e) => return Ok((false, Node::S(format!("config: {}", errtxt(&e))))),
+    };
+    let con = build::consist(&[json!({"kind":"conv","rfc":3100.7,"rgen":3100.7,"redrv":3100.7}), json!({"kind":"bel","rres":3418.3,"redrv":3418.3})],
+                             "RESGreedy", Some(1))?;
+    let (net, route) = toy_net()?;
+    let sim = match desc.get("sim").and_then(|x| x.as_str()) {
+        Some(s) => s.to_string(),
+        None => if desc.get("mix").and_then(|x| x.as_u64()).unwrap_or(0) % 2 == 0 { "setspeed".into() } else { "speedlimit".into() },
+    };
+    Ok(if sim == "setspeed" {
+        let tsb = TrainSimBuilder::new("b".into(), tc, con, None, None, None);
+        match tsb.make_set_speed_train_sim(&net, &route, ramp(20, 0.125, 1.0), Some(1)) {
+            Ok(s) => (true, tree(&s)),
+            Err(e) => (false, Node::S(errtxt(&e))),
+        }
+    } else {
+        let tsb = TrainSimBuilder::new("b".into(), tc, con, Some("A".into()), Some("B".into()), None);
+        let lm = build::location_map(&[1], &[route.len() as u32]);
+        match tsb.make_speed_limit_train_sim(&lm, Some(1), None, None) {
+            Ok(s) => (true, tree(&s)),
+            Err(e) => (false, Node::S(errtxt(&e))),
+        }
+    })
+}
 
 fn dem_at(desc: &Value, j: usize, k: usize) -> f64 {
     const D: [i64; 8] = [4, 8, 2, 0, 6, 1, 3, 5];
@@ -429,6 +576,8 @@ fn execute(desc: &Value) -> anyhow::Result<(bool, Node)> {
             }
             (r.is_ok(), Node::Seq(vec![tree(&s), Node::S(r.err().map(|e| errtxt(&e)).unwrap_or_default())]))
         }
+        "consist" => run_consist(desc)?,
+        "build" => run_build(desc, 0)?,
         k => anyhow::bail!("unknown kind {k}"),
     })
 }
@@ -444,15 +593,22 @@ fn first_text(n: &Node) -> String {
 
 /// `execute` with a panic turned into an outcome
 fn outcome(desc: &Value) -> anyhow::Result<(bool, Value, String)> {
-    match std::panic::catch_unwind(std::panic::AssertUnwindSafe(|| execute(desc))) {
+    outcome_of(|| execute(desc)).map(|(ok, d, msg, _)| (ok, d, msg))
+}
+
+/// an execution with a panic turned into an outcome; the outcome tree is handed back for diagnostics
+fn outcome_of(f: impl FnOnce() -> anyhow::Result<(bool, Node)>) -> anyhow::Result<(bool, Value, String, Node)> {
+    match std::panic::catch_unwind(std::panic::AssertUnwindSafe(f)) {
         Ok(Ok((ok, n))) => {
             let msg = if ok { String::new() } else { first_text(&n) };
-            Ok((ok, dig(&Node::Seq(vec![Node::B(ok), n])), msg))
+            let t = Node::Seq(vec![Node::B(ok), n]);
+            Ok((ok, dig(&t), msg, t))
         }
         Ok(Err(e)) => Err(e),
         Err(p) => {
             let m = format!("panic: {}", panic_msg(&p));
-            Ok((false, dig(&Node::S(m.clone())), m.chars().take(200).collect()))
+            let t = Node::S(m.clone());
+            Ok((false, dig(&t), m.chars().take(200).collect(), t))
         }
     }
 }
@@ -473,9 +629,11 @@ fn exec(desc: &Value, tr: &mut Tracer) -> anyhow::Result<()> {
     // whole-input executions: twice here, once in a second process
     // (inputs with several origin links: four in-process executions)
     let hows: &[&str] = if kind == "fan" { &["inproc1", "inproc2", "inproc3", "inproc4"] } else { &["inproc1", "inproc2"] };
+    let mut reference: Option<Node> = None;
     for how in hows {
-        let (ok, d, msg) = outcome(desc)?;
-        tr.emit(json!({"ev":"Run","id":kind,"how":how,"ok":ok,"d":d,"msg":msg}));
+        let (ok, d, msg, t) = outcome_of(|| execute(desc))?;
+        reference.get_or_insert(t);
+        tr.emit(json!({"ev":"Run","id":kind,"cls":"rep","how":how,"ok":ok,"d":d,"msg":msg}));
     }
     {
         let exe = std::env::current_exe()?;
@@ -485,7 +643,33 @@ fn exec(desc: &Value, tr: &mut Tracer) -> anyhow::Result<()> {
             anyhow::anyhow!("second process gave no result (rc={:?}): {e}: {}", out.status.code(),
                 String::from_utf8_lossy(&out.stderr).chars().take(200).collect::<String>())
         })?;
-        tr.emit(json!({"ev":"Run","id":kind,"how":"proc2","ok":v["ok"],"d":v["d"]}));
+        tr.emit(json!({"ev":"Run","id":kind,"cls":"rep","how":"proc2","ok":v["ok"],"d":v["d"]}));
+    }
+    // where an execution differs from the first one (diagnostics only: TLC compares the digests)
+    let differs = |t: &Node| -> Vec<String> {
+        match &reference {
+            Some(r) if r != t => diff_of(r, t).into_iter().take(6).collect(),
+            _ => vec![],
+        }
+    };
+    if kind == "consist" {
+        // the same calls inside rayon pools of 1, 2, 4, 7 workers
+        for (i, (threads, pool)) in cpools().iter().enumerate() {
+            let (ok, d, msg, t) = pool.install(|| outcome_of(|| run_consist(desc)))?;
+            tr.emit(json!({"ev":"Run","id":kind,"cls":"pool","first":i == 0,"how":format!("pool{threads}"),"threads":threads,
+                           "ok":ok,"d":d,"msg":msg,"diff":differs(&t)}));
+        }
+        return Ok(());
+    }
+    if kind == "build" {
+        // built again from separately constructed equal inputs
+        let reps = desc.get("reps").and_then(|x| x.as_u64()).unwrap_or(8) as usize;
+        for k in 1..=reps {
+            let (ok, d, msg, t) = outcome_of(|| run_build(desc, k))?;
+            tr.emit(json!({"ev":"Run","id":kind,"cls":"build","first":k == 1,"how":format!("build{k}"),"variant":k,
+                           "ok":ok,"d":d,"msg":msg,"diff":differs(&t)}));
+        }
+        return Ok(());
     }
     if kind != "batch" {
         return Ok(());
@@ -599,6 +783,54 @@ fn gen(seed: u64, n: usize, tier: &str) -> Vec<Value> {
                         "len": r.range(50, 600) * heavy}),
         };
         let mut c = c;
+        c["src"] = json!("gen");
+        c["seed"] = json!(seed);
+        c["k"] = json!(k);
+        out.push(c);
+    }
+    // reductions inside one element: consists under worker pools, trains built from fresh equal inputs
+    let extra = (n / 5).max(2);
+    for i in 0..extra {
+        let k = n + i;
+        let mut r = Rng::new(seed.wrapping_mul(9_176_533).wrapping_add(k as u64));
+        // a non-dyadic number of about `base`, different for every draw position j
+        let nd = |r: &mut Rng, base: f64, span: i64, j: usize| base + r.range(0, span) as f64 * 1.3 + 0.1 * r.range(1, 9) as f64 + 7.37 * j as f64;
+        let mut c = if i % 2 == 0 {
+            let nl = *r.pick(&[3, 4, 5, 5, 6, 6, 7, 7]) as usize;
+            // all conventional / all battery / mixed (>= 3 of one kind whenever 5 or more)
+            let pat = *r.pick(&[0, 0, 1, 1, 2, 3]);
+            let units: Vec<Value> = (0..nl)
+                .map(|j| {
+                    let bel = match pat { 0 => false, 1 => true, 2 => j % 2 == 1, _ => r.chance(1, 2) };
+                    let rate = nd(&mut r, 2000.0, 2000, j);
+                    if bel {
+                        json!({"kind":"bel","rres":rate,"redrv":rate,"ke":*r.pick(&[1.3, 1.7, 1.1]),"kr":*r.pick(&[1.7, 1.9, 1.3]),
+                               "soc":0.3 + 0.01 * r.range(0, 40) as f64 + 0.003 * j as f64,"cap":nd(&mut r, 60000.0, 4000, j),
+                               "aux":nd(&mut r, 20.0, 20, j)})
+                    } else {
+                        json!({"kind":"conv","rfc":rate,"rgen":rate,"redrv":rate,"kf":*r.pick(&[3.0, 2.7, 2.3]),"kg":*r.pick(&[1.1, 1.3]),
+                               "ke":*r.pick(&[1.3, 1.7, 1.1]),"aux":nd(&mut r, 20.0, 20, j),"idle":nd(&mut r, 60.0, 20, j)})
+                    }
+                })
+                .collect();
+            let steps = r.range(4, 12);
+            json!({"kind":"consist","n":nl,"units":units,"pdct":*r.pick(&["Proportional", "RESGreedy"]),"steps":steps,
+                   "dt10":*r.pick(&[7, 10, 13]),
+                   "dem":(0..steps).map(|s| if s % 3 == 2 { -r.range(1, 14) } else { r.range(1, 15) }).collect::<Vec<_>>()})
+        } else {
+            let nt = r.range(3, 5) as usize;
+            let cars: Vec<Value> = (0..nt)
+                .map(|j| {
+                    json!({"n":*r.pick(&[7, 11, 13, 5, 9, 17, 3]),"car_mass":nd(&mut r, 19000.0, 12000, j),
+                           "freight": if r.chance(1, 3) { 0.0 } else { nd(&mut r, 30000.0, 40000, j) },
+                           "axles":*r.pick(&[4, 6, 8]),"brakes":1,"car_len":nd(&mut r, 14.0, 4, j) / 1.0,"vmax":31.3,
+                           "mass_rot":nd(&mut r, 550.0, 150, j),"bearing":nd(&mut r, 30.0, 15, j),
+                           "rolling":0.0015 + 0.00001 * r.range(1, 60) as f64,"davis_b":0.001 + 0.00001 * r.range(1, 90) as f64,
+                           "cd_area":nd(&mut r, 1.0, 2, j) / 3.0,"braking_ratio":0.1 + 0.001 * r.range(1, 50) as f64})
+                })
+                .collect();
+            json!({"kind":"build","types":nt,"cars":cars,"sim":*r.pick(&["setspeed", "speedlimit"]),"reps":8})
+        };
         c["src"] = json!("gen");
         c["seed"] = json!(seed);
         c["k"] = json!(k);
